@@ -5,6 +5,7 @@ package main
 
 import (
 	"bufio"
+	"bytes"
 	"fmt"
 	"io"
 	"os"
@@ -36,6 +37,11 @@ func c14TypeMap(kind string) map[string]reflect.Type {
 				}
 			}
 		}
+	case "forest": // a struct with a field of a map type that contains itself (direct oracle only)
+		tm["Forest"] = reflect.TypeOf(Forest{})
+	case "niltype": // a caller mistake: reflect.TypeOf(nil) registered under a class name
+		tm["Inner"] = reflect.TypeOf(Inner{})
+		tm["Nil"] = reflect.TypeOf(nil)
 	case "empty":
 	case "wrong": // names bound to types of the wrong shape
 		known := c14TypeMap("known")
@@ -76,7 +82,7 @@ var lastDecoded interface{}
 // ---- worker: one case per line "entry tmkind hex" -> "outcome consumed alloc_bytes micros"
 func workerMain() {
 	hessian.SetLogger(silent{})
-	tms := map[string]map[string]reflect.Type{"known": c14TypeMap("known"), "empty": c14TypeMap("empty"), "wrong": c14TypeMap("wrong")}
+	tms := map[string]map[string]reflect.Type{"known": c14TypeMap("known"), "empty": c14TypeMap("empty"), "wrong": c14TypeMap("wrong"), "forest": c14TypeMap("forest"), "niltype": c14TypeMap("niltype")}
 	in := bufio.NewReaderSize(os.Stdin, 1<<20)
 	out := bufio.NewWriter(os.Stdout)
 	for {
@@ -235,8 +241,39 @@ func c14Inputs(c *ctx, emit func(label string, bs []byte)) {
 			seeds = append(seeds, b)
 		}
 	}
+	// nesting far deeper than any stack can follow: a megabyte of container-open tags, a long chain of
+	// class definitions (the readers recurse once per level; the decoder must refuse, not die)
+	for _, t := range []byte{0x79, 0x57, 'H'} {
+		seeds = append(seeds, bytes.Repeat([]byte{t}, 1200000))
+	}
+	seeds = append(seeds, bytes.Repeat([]byte{'C', 0, 0x90}, 400000))
+	// declared counts of MODERATE size (below any sanity bound a reader might apply to huge counts),
+	// many times over, with nothing behind them: allocation must follow the bytes, not the counts
+	for _, cnt := range []int{1025, 5000, 60000} {
+		hd := []byte{0x58, 'I', 0, 0, byte(cnt >> 8), byte(cnt)}
+		var b []byte
+		for i := 0; i < 60; i++ {
+			b = append(b, hd...)
+		}
+		seeds = append(seeds, b)
+		tl := append([]byte{'V', 0x04, '[', 'i', 'n', 't', 'I', 0, 0, byte(cnt >> 8), byte(cnt)}, bytes.Repeat([]byte{0x58, 'I', 0, 0, byte(cnt >> 8), byte(cnt)}, 40)...)
+		seeds = append(seeds, tl)
+		seeds = append(seeds, append([]byte{'C', 0x01, 'A', 'I', 0, 0, byte(cnt >> 8), byte(cnt)}, 0x01, 'x'))
+	}
 	for _, s := range seeds {
 		emit("seed", s)
+	}
+	for _, s := range [][]byte{
+		// an untyped map that contains itself (by back-reference), as a value of a field of a self-containing map type
+		append(append([]byte{'C', 0x06}, []byte("Forest")...), 0x91, 0x01, 't', 0x60, 'H', 0x01, 'k', 'H', 0x01, 'a', 0x51, 0x92, 'Z', 'Z'),
+		// ... and a map reachable along two paths at every level (direct and by back-reference)
+		append(append([]byte{'C', 0x06}, []byte("Forest")...), 0x91, 0x01, 't', 0x60, 'H', 0x01, 'k', 'H', 0x01, 'a', 'H', 0x01, 'a', 'H', 'Z', 0x01, 'b', 0x51, 0x94, 'Z', 0x01, 'b', 0x51, 0x93, 'Z', 0x01, 'j', 0x51, 0x92, 'Z'),
+	} {
+		emit("forest", s)
+	}
+	for _, s := range [][]byte{{'N'}, {0x91}, append(append([]byte{'C', 0x03}, []byte("Nil")...), 0x90, 0x60),
+		append(append([]byte{'C', 0x05}, []byte("Inner")...), 0x92, 0x01, 'a', 0x01, 's', 0x60, 0x91, 0x01, 'x')} {
+		emit("niltype", s)
 	}
 	// 2. uniformly random strings
 	n := 1500
@@ -318,7 +355,7 @@ func runC14(c *ctx) {
 	if rp, ok := c.extra["replay"].(string); ok {
 		in := loadReplay(rp)
 		only = in["bytes"].(string)
-		for _, tm := range []string{"known", "empty", "wrong"} {
+		for _, tm := range []string{"known", "empty", "wrong", "forest", "niltype"} {
 			for _, e := range c14Entries {
 				if in["entry"] == e && in["tm"] == tm {
 					c14One(c, &w, e, tm, unhx(only), "replay")
@@ -330,6 +367,12 @@ func runC14(c *ctx) {
 	c14Inputs(c, func(label string, bs []byte) {
 		caseNo++
 		// every input against one (entry, type map) pair in rotation; seeds against all
+		if label == "forest" || label == "niltype" {
+			for _, e := range c14Entries {
+				c14One(c, &w, e, label, bs, label)
+			}
+			return
+		}
 		if label == "seed" {
 			for _, tm := range []string{"known", "empty", "wrong"} {
 				for _, e := range c14Entries {
@@ -372,7 +415,7 @@ func c14One(c *ctx, w **worker, entry, tm string, bs []byte, label string) {
 		c.fail("decode panics", in, fmt.Sprintf("%d bytes of input", len(bs)), c14Class(res, bs))
 		return
 	}
-	if entry == "ReadFrom" && len(bs) <= 3000 && (res == "err" || f[4] != "-") {
+	if entry == "ReadFrom" && tm != "forest" && tm != "niltype" && len(bs) <= 3000 && (res == "err" || f[4] != "-") {
 		ans := "err"
 		if res == "ok" {
 			ans = "ok " + strings.ReplaceAll(f[4], "\x01", " ") + " " + f[1]
